@@ -465,29 +465,31 @@ theorem closeStream_outs (st : St) : ∀ o ∈ (closeStream st).2,
       exact Or.inr (Or.inr ⟨_, _, rfl⟩)
 
 /-- **the connection is reused iff request and response are both complete, neither side asked to close (h11 then has
-    both sides DONE) and shutdown has not begun; otherwise `Closed` is sent** -/
+    both sides DONE), the connection has not been lost (`handle(Closed)`, repair f219a22) and shutdown has not begun;
+    otherwise `Closed` is sent** -/
 theorem reuse_iff (st : St) :
     (Out.startNextCycle true ∈ (maybeRecycle st).2 ↔
-      (st.terminated = false ∧ st.lib.server = .done ∧ st.lib.client = .done ∧ st.wsMode = false)) ∧
+      (st.closed = false ∧ st.terminated = false ∧ st.lib.server = .done ∧ st.lib.client = .done ∧ st.wsMode = false)) ∧
     (Out.upClosed ∈ (maybeRecycle st).2 ↔
-      ¬ (st.terminated = false ∧ st.lib.server = .done ∧ st.lib.client = .done ∧ st.wsMode = false)) := by
+      ¬ (st.closed = false ∧ st.terminated = false ∧ st.lib.server = .done ∧ st.lib.client = .done ∧ st.wsMode = false)) := by
   have hcs : ∀ o ∈ (closeStream st).2, o ≠ Out.startNextCycle true ∧ o ≠ Out.upClosed := by
     intro o ho
     rcases closeStream_outs st o ho with ⟨a, rfl⟩ | ⟨i, m, rfl⟩ | ⟨i, m, rfl⟩ <;> simp
-  have hlib : (closeStream st).1.lib = st.lib ∧ (closeStream st).1.terminated = st.terminated ∧ (closeStream st).1.wsMode = st.wsMode := by
+  have hlib : (closeStream st).1.lib = st.lib ∧ (closeStream st).1.terminated = st.terminated ∧ (closeStream st).1.wsMode = st.wsMode ∧
+      (closeStream st).1.closed = st.closed := by
     unfold closeStream; (repeat' split) <;> simp [St.setObj]
-  obtain ⟨h1, h2, h3⟩ := hlib
+  obtain ⟨h1, h2, h3, h4⟩ := hlib
   have hn1 : Out.startNextCycle true ∉ (closeStream st).2 := fun h => (hcs _ h).1 rfl
   have hn2 : Out.upClosed ∉ (closeStream st).2 := fun h => (hcs _ h).2 rfl
   unfold maybeRecycle
-  simp only [h1, h2, h3]
-  by_cases hc : st.terminated = false ∧ st.lib.server = .done ∧ st.lib.client = .done ∧ st.wsMode = false
-  · obtain ⟨ht, hs, hcl, hw⟩ := hc
+  simp only [h1, h2, h3, h4]
+  by_cases hc : st.closed = false ∧ st.terminated = false ∧ st.lib.server = .done ∧ st.lib.client = .done ∧ st.wsMode = false
+  · obtain ⟨hcl0, ht, hs, hcl, hw⟩ := hc
     have hsn : H11M.startNextCycle st.lib = some { st.lib with client := .idle, server := .idle, waiting100 := false, reqHead := false, reqConnect := false } := by
       simp [H11M.startNextCycle, hs, hcl]
-    simp [ht, hs, hcl, hw, hsn, hn1, hn2]
-  · have hcond : (!st.terminated && st.lib.server == .done && st.lib.client == .done && !st.wsMode) = false := by
-      cases ht : st.terminated <;> cases hw : st.wsMode <;> simp_all
+    simp [hcl0, ht, hs, hcl, hw, hsn, hn1, hn2]
+  · have hcond : (!st.closed && !st.terminated && st.lib.server == .done && st.lib.client == .done && !st.wsMode) = false := by
+      cases hc0 : st.closed <;> cases ht : st.terminated <;> cases hw : st.wsMode <;> simp_all
     simp [hcond, hn1, hn2, hc]
 
 /-- `_maybe_recycle` never calls into h11's `send`: its outputs are the close-stream notifications, the cycle restart
@@ -504,16 +506,17 @@ theorem maybeRecycle_no_libSend (st : St) (e : LibSend) (ok : Bool) : Out.libSen
 /-- **after a close decision nothing more is served**: if the protocol did not recycle when its current stream ended,
     h11 will never yield another `Request` on this connection (the client side is not IDLE and never returns to it) -/
 theorem no_request_after_close (cfg : Cfg) (st : St) (r : ReqEv) (hI : Inv st) (hcur : st.cur.isSome = true)
-    (hnot : ¬ (st.terminated = false ∧ st.lib.server = .done ∧ st.lib.client = .done ∧ st.wsMode = false)) :
+    (hnot : ¬ (st.closed = false ∧ st.terminated = false ∧ st.lib.server = .done ∧ st.lib.client = .done ∧ st.wsMode = false)) :
     onLibEv cfg { (maybeRecycle st).1 with pc := .inLoop } (.request r) = none := by
   have hidle : st.lib.client ≠ .idle := hI hcur
   have hlib : (maybeRecycle st).1.lib = st.lib := by
-    have hl : (closeStream st).1.lib = st.lib ∧ (closeStream st).1.terminated = st.terminated ∧ (closeStream st).1.wsMode = st.wsMode := by
+    have hl : (closeStream st).1.lib = st.lib ∧ (closeStream st).1.terminated = st.terminated ∧ (closeStream st).1.wsMode = st.wsMode ∧
+        (closeStream st).1.closed = st.closed := by
       unfold closeStream; (repeat' split) <;> simp [St.setObj]
     unfold maybeRecycle
-    simp only [hl.1, hl.2.1, hl.2.2]
-    have hcond : (!st.terminated && st.lib.server == .done && st.lib.client == .done && !st.wsMode) = false := by
-      cases ht : st.terminated <;> cases hw : st.wsMode <;> simp_all
+    simp only [hl.1, hl.2.1, hl.2.2.1, hl.2.2.2]
+    have hcond : (!st.closed && !st.terminated && st.lib.server == .done && st.lib.client == .done && !st.wsMode) = false := by
+      cases hc0 : st.closed <;> cases ht : st.terminated <;> cases hw : st.wsMode <;> simp_all
     simp [hcond, hl.1]
   unfold onLibEv
   split
